@@ -593,6 +593,99 @@ def f0_shard(arg):
     return acc
 
 
+# ------------------------------------------------------------------------------------- f0 first-call histories
+# The analytic form factors come from a table the library reads on first use: which entry a process asks FIRST, and by
+# which call, must not matter.  Every history below runs in its own fork of a process that has asked for no form factor.
+F0H_WAYS = ("fxrayatq(label)", "fxrayatq(symbol,charge)", "fxrayatstol(label)", "atom.xray.f0", "isotope-ion.xray.f0")
+F0H_PAIR_ENTRIES = ("Fe", "Fe2+", "Fe3+", "O", "O1-", "Cl1-", "Na1+", "Ca2+", "H", "H1-")
+
+
+def f0h_call(pt, cm, ent, way):
+    """-> (callable Q -> value, python text with %s for Q) or None when the way does not apply to the entry."""
+    sym = ent["symbol"]
+    parts = rx.f0_symbol_parts(sym)
+    if way == "fxrayatq(label)":
+        return (lambda Q: cm.fxrayatq(sym, Q)), "cromermann.fxrayatq(%r, %%s)" % sym
+    if way == "fxrayatstol(label)":
+        return (lambda Q: cm.fxrayatstol(sym, Q / (4 * PI))), "cromermann.fxrayatstol(%r, %%s/(4*math.pi))" % sym
+    if parts is None:
+        return None
+    esym, q = parts
+    if way == "fxrayatq(symbol,charge)":
+        return (lambda Q: cm.fxrayatq(esym, Q, charge=q)), "cromermann.fxrayatq(%r, %%s, charge=%d)" % (esym, q)
+    el = pt.elements.symbol(esym)
+    if q and q not in el.ions:
+        return None
+    if way == "atom.xray.f0":
+        spec = (esym, None, q)
+    else:
+        isos = el.isotopes
+        if not isos:
+            return None
+        spec = (esym, isos[len(isos) // 2], q)
+    return (lambda Q: atom_obj(pt, spec).xray.f0(Q)), "%s.xray.f0(%%s)" % atom_code(spec)
+
+
+def f0h_history(hist):
+    """hist = [(entry symbol, way), ...]; runs in the calling (forked, fresh) process.  After every call of the
+    history the call just made - and at the end every call again - is compared with the closed form of its entry."""
+    acc = Acc()
+    pt, _xsf, _consts, cm = _env()
+    ents = dict((e["symbol"], e) for e in rx.f0_entries())
+    head = "import math, periodictable as pt\nfrom periodictable import cromermann\n"
+    calls, lines = [], []
+    for sym, way in hist:
+        c = f0h_call(pt, cm, ents[sym], way)
+        if c is None:
+            acc.count("f0_history_way_not_applicable")
+            return acc
+        calls.append((ents[sym], c))
+    QS = (0.0, 1.0, 4 * PI)
+    def judge(k, tag):
+        ent, (fn, text) = calls[k]
+        for Q in QS:
+            acc.states += 1; acc.evaluations += 1; acc.transitions += 1; acc.nontrivial += 1
+            ref = rx.f0_reference(ent["a"], ent["c"], ent["b"], Q)
+            scale = f0_terms_scale(ent["a"], ent["c"], ent["b"], Q)
+            code = head + "".join(lines) + "print(%s)   # entry %r of f0_WaasKirf.dat\n" % (text % repr(Q), ent["symbol"])
+            case = dict(unit="f0-history", history=[list(h) for h in hist], judged=k, when=tag, Q=Q)
+            try:
+                v = float(fn(Q))
+            except Exception as e:
+                acc.violation("f0-history:%s-raises" % tag, case, ref, exc(e), standalone=code)
+                return False
+            if not ok1(v, ref, scale):
+                acc.violation("f0-history:%s-differs-from-entry" % tag, case, ref, v, standalone=code)
+                return False
+        lines.append(calls[k][1][1] % repr(QS[0]) + "\n")
+        return True
+    for k in range(len(calls)):
+        if not judge(k, "first-call" if k == 0 else "call-after-another-entry"):
+            return acc
+    for k in range(len(calls)):
+        if not judge(k, "call-repeated"):
+            return acc
+    acc.outcome("f0-history:depth-%d" % len(hist))
+    return acc
+
+
+def f0h_plan(quick):
+    ents = rx.f0_entries()
+    singles = [((e["symbol"], w),) for e in ents for w in F0H_WAYS]
+    alpha = [(sym, w) for sym in F0H_PAIR_ENTRIES for w in (F0H_WAYS if not quick else F0H_WAYS[:2] + F0H_WAYS[3:4])]
+    pairs = [(a, b) for a in alpha for b in alpha if a != b]
+    return singles, pairs
+
+
+def f0h_shard(arg):
+    hists, quick = arg
+    acc = Acc()
+    for h in hists:
+        acc.merge(in_fork(lambda h=h: _clean(f0h_history(h))))
+    acc.count("f0_histories", len(hists))
+    return acc
+
+
 # ------------------------------------------------------------------------------------- compound unit
 def compound_list(tier):
     out = []
@@ -1473,6 +1566,10 @@ def run(ctx):
                 mixed.append(kinds[k].pop(0))
     rcs = reuse_compounds(quick)
     mixed = [("reuse-alone", (k, c, quick)) for k, c in enumerate(rcs)] + mixed
+    singles, pairs = f0h_plan(quick)
+    allh = singles + pairs
+    mixed = mixed + [("f0-history", (allh[k::nshard], quick)) for k in range(nshard)]
+    ctx.acc.info["max_f0_histories"] = len(allh)
     res = ctx.pmap(_dispatch, mixed)
     bad = {}
     for r in res:
@@ -1526,6 +1623,8 @@ def _dispatch(job):
         return k, bad, _clean(acc)
     if kind == "reuse":
         return _clean(reuse_shard(arg))
+    if kind == "f0-history":
+        return _clean(f0h_shard(arg))
     return _clean(compound_shard(arg))
 
 
@@ -1542,6 +1641,8 @@ def replay(ctx, case, signature=None):
         for ent in rx.f0_entries():
             if ent["symbol"] == case["entry"]:
                 f0_unit(ent, pt, cm, acc)
+    elif unit == "f0-history":
+        acc = in_fork(lambda: _clean(f0h_history([tuple(h) for h in case["history"]])))
     elif unit == "compound":
         cmpd = tuple(((a[0], a[1], a[2]), c) for a, c in case["compound"])
         pt, xsf, consts, _cm = _env()
